@@ -11,6 +11,7 @@ pub mod c05;
 pub mod c06;
 pub mod c07;
 pub mod obs;
+pub mod c08;
 pub mod c09;
 pub mod c10;
 pub mod c11;
@@ -18,16 +19,19 @@ pub mod c12;
 pub mod c15;
 pub mod c16;
 pub mod c17;
+pub mod c18;
 
 pub fn all() -> Vec<&'static Prop> {
-    vec![&c01::PROP, &c02::PROP, &c03::PROP, &c04::PROP, &c05::PROP, &c06::PROP, &c07::PROP, &c09::PROP, &c10::PROP, &c11::PROP, &c12::PROP, &c15::PROP, &c16::PROP, &c17::PROP]
+    vec![&c01::PROP, &c02::PROP, &c03::PROP, &c04::PROP, &c05::PROP, &c06::PROP, &c07::PROP, &c08::PROP, &c09::PROP, &c10::PROP, &c11::PROP, &c12::PROP, &c15::PROP, &c16::PROP, &c17::PROP, &c18::PROP]
 }
 
 pub fn worker_main(kind: &str, _args: &[String]) -> i32 {
     match kind {
         "c01" => c01::worker(),
+        "c08" => c08::worker(),
         "c10" => c10::worker(),
         "c16" => c16::worker(),
+        "c18" => c18::worker(),
         _ => {
             eprintln!("unknown worker kind {}", kind);
             2
